@@ -27,7 +27,10 @@ def merge(results):
             continue
         for k, v in res.get("counters", {}).items():
             if isinstance(v, (int, float)):
-                C[k] += v
+                if k.startswith("max-"):
+                    C[k] = max(C[k], v)
+                else:
+                    C[k] += v
         sigs.update(res.get("sigs", []))
         viols.extend(res.get("violations", []))
         for (p, clause, mechs), n in [((k[0], k[1], tuple(k[2])), v) for k, v in res.get("viol_counts", [])]:
@@ -100,6 +103,8 @@ def finish(prop, tier, seed, cfg, out, t0):
             picked.append(v)
     for v in picked[:16]:
         rp = v.get("replay") or dict(property=prop, clause=v["clause"], observed=v["detail"])
+        rp.setdefault("observed", v["detail"])
+        rp.setdefault("clause", v["clause"])
         rp["repo_rev"] = common.repo_rev()
         rp["tier"] = tier
         path = os.path.join(common.REPLAYS, prop, "%s-%s.json" % (v["clause"].replace("/", "_").replace(">", "gt").replace(" ", "_"), common.h12(common.dumps(rp, sort_keys=True))))
